@@ -2,6 +2,7 @@ package check
 
 import (
 	"verif/harness/internal/gen"
+	"verif/harness/internal/prog"
 )
 
 // C02: completion is reported iff all start events fired and no token remains.
@@ -30,6 +31,22 @@ func C02(c *Ctx) int {
 		Features: []string{"wait"}, MaxWaits: 1,
 		Job: JobOpts{Perturb: 3, LingerMs: -1, HoldPoints: []string{"process.start.triggered"}}}); err != nil {
 		c.Infraf("%v", err)
+	}
+	// the start events triggered by concurrent StartWith calls, the monitor's start-up slowed down
+	// (held where it subscribes / where the start is triggered)
+	{
+		var multi []*prog.Program
+		for _, p := range ps {
+			if p.HasTag("multi-start") {
+				multi = append(multi, p)
+			}
+		}
+		multi = append(multi, gen.StartAtTheEdgeShapes()...)
+		if err := c.TokenGameRound(fs, multi, RoundOpts{Label: "concurrent-start", MaxSteps: 6, MaxPerProg: 12, Reps: 3,
+			Features: []string{"wait"}, MaxWaits: 1,
+			Job: JobOpts{Perturb: 3, ConcurrentStart: true, LingerMs: -1, HoldPoints: []string{"process.monitor.create"}}}); err != nil {
+			c.Infraf("%v", err)
+		}
 	}
 	// cancel while the instance is parked at unanswered requests: no cease trace may follow
 	c.ParkedCancelRound(fs, ps, 3)
